@@ -9,6 +9,10 @@ def headContentOps : OpTable
   | "head_content" => some do
     let ks ← nodes; let r ← nat
     pure (encExcept encNode (headContent cfg Sha1.sha1Hex r ks))
+  | "head_content_json" => some do
+    -- the same construction while the global dependency render mode is "json": the name must not depend on the mode
+    let ks ← nodes; let r ← nat
+    pure (encExcept encNode (headContent cfg Sha1.sha1Hex r ks))
   | "sha1" => some do
     let s ← str
     pure (encStr (Sha1.sha1Hex s))
